@@ -204,13 +204,15 @@ _E4_DIRS = ["internal/model/core", "internal/model/sequence", "internal/usecase/
             "internal/repository/file", "internal/repository/content_file", "internal/utils/async", "internal/utils/wpool", "internal/db/badger", "pkg/inline/db", "internal/di"]
 _E4_ASSUME = ["fs_db's sync / sync-atomic / go statements / blocking selects / time.After in the listed packages are redirected by the source rewriter (tools/rewrite) to the cooperative scheduler harness/detsync; everything else (Badger, files, the omap registry) runs unmodified and is atomic from the scheduler's point of view",
               "scheduling points: every lock/unlock/atomic/cond/waitgroup/channel-select operation and every verif hook point; one managed goroutine runs at a time; the schedule (forced preemptions or a random-walk tape) is part of the generated case",
-              "a fresh Badger database and file tree per schedule"]
+              "a fresh database (heavy: Badger + file tree; light: in-memory key-value provider + file tree) per schedule",
+              "known findings C06-unpinned-read and C08-begin-vs-collector are excused by their exact signatures over the hook trace (the reads they name become wildcards in the linearizability search); see KNOWN_FINDINGS.jsonl"]
 
 CHECKS["C07"] = dict(
     level="exploration",
     rule=("part 'enum': a catalogue of 7 tiny programs (2-3 snapshot transactions begun and written in a sequential prologue, intersecting write sets, one variant against an autocommit writer) whose Commit calls run concurrently; the default schedule plus EVERY single forced preemption of the concurrent phase is executed. "
           "part 'rand': rapid-generated programs of the same family (1-3 keys, 2-3 transactions of levels RR/SER/RC, optional late write, optional autocommit writer) x generated schedules (0-4 forced preemptions or a random-walk tape with switch probability 2-30%). "
           "Oracle: no deadlock/panic, and the call/return history (commits + an epilogue reading every key) has a linearization accepted by the reference model - under it two intersecting snapshot commits cannot both succeed. "
+          "parts 'lenum'/'lrand' repeat this on the LIGHT backend (the same use cases, repositories and real worker pool wired as pkg/inline/db.New wires them, over an in-memory key-value provider with Badger-like atomic transactions and the same hook points; content files real): ALL schedules with <= 2 forced preemptions (to working goroutines) of the catalogue programs marked deep (3-party programs) in the quick tier and of every catalogue program in the thorough tier, for every rotation of the client list, plus 4 000 / 400 000 generated programs x schedules. "
           "non-trivial = two operations of different clients, one a write/commit, overlapped in logical time."),
     assumptions=_E4_ASSUME,
     parts=[
@@ -241,6 +243,7 @@ CHECKS["C12"] = dict(
           "part 'rand': rapid-generated write-size sequences (0-12 writes from {0,1,2047,2048,2049,32767,32768,32769,0..5000}), optional injected store failure, optional second client (another Create on the same key, or a reader) x generated schedules. "
           "Oracle: Close returns (a parked Close with nothing runnable is a deadlock verdict, never a time-out); nil => a later Get yields exactly the concatenation (the write linearizes between Create and Close); error => the key is unchanged; the gRPC variant of the size sequences is covered sequentially by C11's generator. "
           "parts 'rwenum'/'rwrand': the asynchronous read-writer alone, wired exactly as pkg/inline/db/create.go wires it (storing goroutine reading with a 32 KiB buffer, SetError on failure), no database: ALL schedules with <= 2 (quick) / <= 3 (thorough) forced preemptions of 9 write-size programs, plus rapid-generated programs x schedules; oracle: Close returns, nil => received bytes == concatenation, store failure => error of that class. "
+          "parts 'lenum'/'lrand' repeat this on the LIGHT backend (the same use cases, repositories and real worker pool wired as pkg/inline/db.New wires them, over an in-memory key-value provider with Badger-like atomic transactions and the same hook points; content files real): ALL schedules with <= 2 forced preemptions (to working goroutines) of the catalogue programs marked deep (3-party programs) in the quick tier and of every catalogue program in the thorough tier, for every rotation of the client list, plus 4 000 / 400 000 generated programs x schedules. "
           "non-trivial = the sequence contains an empty write or the schedule forces >= 1 preemption."),
     assumptions=_E4_ASSUME,
     parts=[
@@ -274,6 +277,7 @@ CHECKS["C06"] = dict(
     rule=("part 'enum': a catalogue of 12 tiny programs (writer||reader, overwrite||collector||reader, writers of different keys||GetKeys, delete||reader, RC commit||RU reader, rollback||RU reader, commits on different keys, in-transaction overwrite+commit||RU reader||collector, begin/write/commit||begin/write/rollback||writer, three writers, writer||collector||collector, RC read-own-write||writer) - the default schedule plus EVERY single forced preemption of the concurrent phase. "
           "part 'rand': rapid-generated programs of 2-4 clients (autocommit clients, RU/RC transactions each driven by one client, a collector actor; 1-3 shared keys; a sequential prologue creating versions) x generated schedules (0-4 forced preemptions or a random-walk tape; the periodic collector's virtual timer may fire at any step). "
           "Oracle: no deadlock, no panic; the call/return history (with logical timestamps, so real-time order is exact) plus an epilogue reading every key has a linearization accepted by the reference model - a lost or resurrected write, a key reported missing while it had a value, another key's or a partial content have none. "
+          "parts 'lenum'/'lrand' repeat this on the LIGHT backend (the same use cases, repositories and real worker pool wired as pkg/inline/db.New wires them, over an in-memory key-value provider with Badger-like atomic transactions and the same hook points; content files real): ALL schedules with <= 2 forced preemptions (to working goroutines) of the catalogue programs marked deep (3-party programs) in the quick tier and of every catalogue program in the thorough tier, for every rotation of the client list, plus 4 000 / 400 000 generated programs x schedules. "
           "non-trivial = operations of different clients overlapped in logical time with a write/commit involved."),
     assumptions=_E4_ASSUME + ["known finding C06-unpinned-read: a Get/GetKeys whose resolved content was removed by the collector/cleaner inside the read's interval is excused (the read's result becomes a wildcard in the linearizability search) - only when the hook trace shows exactly that removal"],
     parts=[
